@@ -187,7 +187,7 @@ func runC14(c *mon.Ctx) {
 			c14SendJoin(c, sr, sc)
 			c14SendJoinRedactedPowerLevels(c, sr, sc)
 			c14AuthChain(c, sr, sc)
-			c14AuthAtState(c, sr, sc)
+			c14AuthAtState(c, sr, sc, other)
 			c14Load(c, sr, sc)
 		}
 	}
@@ -1014,7 +1014,7 @@ func atStateOK(ev gmsl.PDU, sp *stubStateProvider, allowValidation bool) bool {
 	return allowedBy(ev, state)
 }
 
-func c14AuthAtState(c *mon.Ctx, r *gen.Rand, sc *simScenario) {
+func c14AuthAtState(c *mon.Ctx, r *gen.Rand, sc *simScenario, other *simScenario) {
 	s := sc.s
 	for i := 0; i < 8; i++ {
 		b := gen.Pick(r, sc.branches)
@@ -1023,8 +1023,27 @@ func c14AuthAtState(c *mon.Ctx, r *gen.Rand, sc *simScenario) {
 		// the "state before the event": the branch state, perturbed
 		view := gen.Pick(r, sc.branches).list()
 		sp := &stubStateProvider{state: map[string]gmsl.PDU{}}
-		kind := gen.Pick(r, []string{"same-branch", "other-branch", "first-known-later-missing", "none-known", "ids-error", "state-error"})
+		kind := gen.Pick(r, []string{"same-branch", "other-branch", "first-known-later-missing", "none-known", "ids-error", "state-error", "event-of-another-room-in-state", "event-of-another-room-in-state"})
 		switch kind {
+		case "event-of-another-room-in-state":
+			// the state before the event names, for the power levels / join rules / a membership, an event of another
+			// room: that is no state the event can be allowed by (and the event is not to be judged as if the key were empty)
+			view = append([]gmsl.PDU{}, st...)
+			otherState := map[stKey]gmsl.PDU{}
+			for _, o := range other.branches[0].list() {
+				otherState[stKey{o.Type(), *o.StateKey()}] = o
+			}
+			replaced := 0
+			for _, idx := range r.Perm(len(view)) {
+				p := view[idx]
+				if o := otherState[stKey{p.Type(), *p.StateKey()}]; o != nil && p.Type() != "m.room.create" && (replaced == 0 || r.Chance(0.3)) {
+					view[idx] = o
+					replaced++
+				}
+			}
+			if replaced == 0 {
+				kind = "same-branch"
+			}
 		case "same-branch":
 			view = st
 		case "first-known-later-missing":
